@@ -100,7 +100,7 @@ def _c04() -> SimEngine:
         "identity-checked sentinels), call-time faults, pool sizes forcing waits, competing requests, lock()/gather_and_close() after "
         "acceptance. Non-trivial: some request had num >= 2, its spawner had to wait for room and a lock/close/competing request arrived "
         "while it still had invocations left. Distinct = program hash.",
-        [("apply", prof, 0.6), ("start", simple, 0.4)],
+        [("apply", prof, 0.52), ("start", simple, 0.36), ("two-pools", dict(prof, max_pools=2, classes=["TaskPool", "SimpleTaskPool"]), 0.12)],
         lambda case, l: "pool-full-with-spawner-waiting" in l and "lock-or-close-while-spawner-active" in l
         and has(case, lambda s: s["op"] == "spawn" and s.get("num", 1) >= 2),
         n_quick=4000, n_thorough=200000, floors={"lock-or-close-while-spawner-active": 0.15})
@@ -117,7 +117,7 @@ def _c05() -> SimEngine:
         "and above num_concurrent, gates opened in generated order, single cancellations, competing requests. Non-trivial: a call reached "
         "num_concurrent live tasks at an idle point and either tasks of a call finished out of start order or an element's call raised. "
         "Distinct = program hash.",
-        [("default", prof, 1.0)],
+        [("default", prof, 0.9), ("two-pools", dict(prof, max_pools=2), 0.1)],
         lambda case, l: "map:at-num_concurrent" in l and ("map:finished-out-of-start-order" in l or has(case, lambda s: s["op"] == "spawn" and s.get("worker", {}).get("callfault"))),
         n_quick=4000, n_thorough=200000, floors={"map:at-num_concurrent": 0.3, "map:finished-out-of-start-order": 0.05})
 
@@ -141,7 +141,7 @@ def _c06() -> SimEngine:
         "cancel(*ids) at arbitrary points with id tuples mixing running (incl. created-not-started, already cancel-requested), duplicate, "
         "in-callback, ended, flushed, never issued and negative ids; plus the enumerated sweep. Non-trivial: a call mixing running and "
         "non-running ids, or cancelling >= 2 distinct ids. Distinct = program hash.",
-        [("default", prof, 1.0)],
+        [("default", prof, 0.85), ("two-pools", dict(prof, max_pools=2), 0.15)],
         lambda case, l: bool(l & {"cancel:mixed-ids", "cancel:multi"}),
         n_quick=4000, n_thorough=200000, sweep=sw, floors={"cancel:mixed-ids": 0.1, "cancel:ok": 0.3})
 
@@ -198,7 +198,7 @@ def _c08() -> SimEngine:
         "histories ending in gather_and_close() (as an actor) with pending/blocked spawners, groups cancelled in the same tick, tasks "
         "mid-callback, until_closed() waiters; gates opened in generated order while it waits; plus the enumerated sweep. Non-trivial: at "
         "call time a spawner had work left and a task was running, and the call returned. Distinct = program hash.",
-        [("default", prof, 1.0)],
+        [("default", prof, 0.9), ("two-pools", dict(prof, max_pools=2), 0.1)],
         lambda case, l: "close:spawner-work-left-and-task-running" in l and "close:returned" in l,
         n_quick=4000, n_thorough=200000, sweep=sw, floors={"close:spawner-had-work-left": 0.2, "close:returned": 0.5})
 
@@ -212,7 +212,7 @@ def _c09() -> SimEngine:
         "partial / builtin, num_concurrent <= 0, duplicate explicit group name, negative pool size by constructor and assignment) at "
         "arbitrary points; lock()/unlock() repeated. Non-trivial: a request carrying work was rejected while groups were live. "
         "Distinct = program hash.",
-        [("default", prof, 1.0)],
+        [("default", prof, 0.9), ("two-pools", dict(prof, max_pools=2), 0.1)],
         lambda case, l: "rejected:with-live-groups" in l,
         n_quick=4000, n_thorough=200000, floors={"rejected:with-live-groups": 0.3, "rejected:multi-cause": 0.1})
 
@@ -225,7 +225,7 @@ def _c10() -> SimEngine:
         "named and unnamed requests of all kinds with few function names and explicit names imitating the generated pattern, group "
         "cancellations followed by name re-use, interleaved spawners. Non-trivial: >= 3 requests, a group cancellation and a later request "
         "that got a name used before. Distinct = program hash.",
-        [("default", prof, 1.0)],
+        [("default", prof, 0.9), ("two-pools", dict(prof, max_pools=2), 0.1)],
         lambda case, l: n_spawns(case) >= 3 and bool(l & {"cancel_group:ok", "cancel_all:ok"}) and "group:name-reused" in l,
         n_quick=4000, n_thorough=200000, floors={"group:name-reused": 0.1})
 
@@ -244,7 +244,7 @@ def _c11() -> SimEngine:
 
 def _c13() -> SimEngine:
     prof = profile(p_cb=0.85, p_cb_async=0.8, p_cb_wait=0.8, sizes=[1, 2, 3, None], p_worker_raise=0.25, p_iter_raise=0.15, p_cb_raise=0.08, min_steps=8,
-                   ops={"flush": 6, "cancel": 4, "cancel_group": 1, "spawn": 8, "gate": 7, "tick": 7, "stop": 1})
+                   ops={"flush": 6, "cancel": 4, "cancel_group": 1, "spawn": 8, "gate": 7, "tick": 7, "stop": 1, "abandon": 0.8})
 
     def sw(tier: str):
         perts = [{"op": "flush", "pool": 0}, {"op": "flush", "pool": 0, "re": True}]
@@ -264,7 +264,7 @@ def _c13() -> SimEngine:
         "flush() calls (several, overlapping, both return_exceptions values) at arbitrary ticks relative to tasks ending, being cancelled "
         "and sitting in slow callbacks; plus the enumerated sweep. Non-trivial: a flush was suspended and another task changed state "
         "meanwhile. Distinct = program hash.",
-        [("default", prof, 1.0)],
+        [("default", prof, 0.88), ("two-pools", dict(prof, max_pools=2), 0.12)],
         lambda case, l: "flush:was-suspended" in l and "flush:state-changed-meanwhile" in l,
         n_quick=4000, n_thorough=200000, sweep=sw, floors={"flush:was-suspended": 0.2, "flush:state-changed-meanwhile": 0.05})
 
